@@ -35,7 +35,8 @@ RULE = (
     "(incl. pulls exactly on publications, at the step position, 1us steps, pulls spanning several publications), the "
     "initial pull at the first publication time, and out-of-range pulls; AvgOverTime and SumOverTime, linear and "
     "step in {0,1/4,1/2,1,1/8,3/4,1/3,2/3,1/10,3/10}, per_time and absolute, initial_interval in {0,1us,1h,1d}, units "
-    "m/s, mm/d, m, dimensionless, 1/d, scalar and small gridded payloads; a third of the series contain plateaus "
+    "m/s, mm/d, m, dimensionless, 1/d, scalar and small gridded payloads; 40% of the gridded series have single "
+    "publications with one or two missing cells (NaN, or masked with FLEX info); a third of the series contain plateaus "
     "(the same payload, often zeros, published 3 or more times in a row); a quarter of the cases give the adapter a "
     "memory limit (0 / 1.5 payloads / huge) with one spill directory per worker process and are preceded by another "
     "coupling (other payloads) in the same process and directory; non-trivial = at least 3 publications and at "
@@ -83,6 +84,8 @@ def _gen_case(rng, i, malformed):
     # plateaus: the source publishes the SAME payload several times in a row (dry spell, constant rate); every
     # published interval still counts (absolute sums: once per interval, whatever its length)
     plateau = rng.random() < 0.35
+    # missing values in gridded payloads: NaN cells, or masked cells (numpy masked array, Mask.FLEX info)
+    missing = rng.choice(["nan", "mask"]) if (shape and rng.random() < 0.4) else None
     last_payload = None
     prev = None          # the adapter's _prev_time
     pulled_later = False  # a pull later than the first publication happened
@@ -102,7 +105,15 @@ def _gen_case(rng, i, malformed):
         else:
             payload = [_val(rng, exact) for _ in range(n)]
         last_payload = payload
-        ops.append(["push", t, payload])
+        op = ["push", t, payload]
+        if missing:
+            # single publications carry one or two missing cells (NaN or masked), the others are complete
+            flags = [0] * n
+            if rng.random() < 0.35:
+                for j in rng.sample(range(n), rng.choice([1, 1, 2]) if n > 1 else 1):
+                    flags[j] = 1
+            op.append(flags)
+        ops.append(op)
 
     if not (malformed and rng.random() < 0.4):
         push()
@@ -156,16 +167,24 @@ def _gen_case(rng, i, malformed):
         pulled_later = True
     return {"adapter": adapter, "step": step, "per_time": per_time, "init": rng.choice(INITS) if adapter == "sum" else 0,
             "units": rng.choice(UNITS), "shape": shape, "exact": exact,
-            "mem": rng.choice([0, "mid", "huge"]) if rng.random() < 0.25 else None, "ops": ops}
+            "mem": rng.choice([0, "mid", "huge"]) if rng.random() < 0.25 else None, "missing": missing, "ops": ops}
 
 
 def _daily(vals):
     return [["push", d * DAY, [float(v)]] for d, v in enumerate(vals)]
 
 
-def _case(adapter, step, per_time, ops, units="mm/d", init=0, shape=None, exact=False, mem=None):
+def _case(adapter, step, per_time, ops, units="mm/d", init=0, shape=None, exact=False, mem=None, missing=None):
     return {"adapter": adapter, "step": step, "per_time": per_time, "init": init, "units": units,
-            "shape": shape or [], "exact": exact, "mem": mem, "ops": ops}
+            "shape": shape or [], "exact": exact, "mem": mem, "missing": missing, "ops": ops}
+
+
+def _missing_witness(adapter, step, per_time, missing, units="mm/d", mem=None):
+    """one publication with a missing cell; the pulls after the NEXT publication do not touch it (seeded C12_g)"""
+    ops = [["push", 0, [1.0, 2.0], [0, 0]], ["pull", 0], ["push", 8, [3.0, 5.0], [0, 1]], ["pull", 4], ["pull", 8],
+           ["push", 16, [2.0, 4.0], [0, 0]], ["pull", 12], ["push", 24, [6.0, 1.0], [0, 0]], ["pull", 16], ["pull", 20],
+           ["push", 32, [0.5, 7.0], [1, 0]], ["pull", 24], ["pull", 28], ["pull", 32]]
+    return _case(adapter, step, per_time, ops, units=units, shape=[2], mem=mem, missing=missing)
 
 
 def _six_hourly(days):
@@ -186,6 +205,9 @@ def _plateau_series(stride, days=9, **kw):
 
 
 CORPUS = [
+    _missing_witness("avg", None, False, "nan"), _missing_witness("avg", [1, 2], False, "mask"),
+    _missing_witness("sum", None, True, "mask"), _missing_witness("sum", [0, 1], True, "nan", units="m/s"),
+    _missing_witness("sum", None, False, "nan", units="m"), _missing_witness("sum", [1, 4], False, "mask", units="m", mem=0),
     # plateaus in the source series: every published interval counts in an absolute sum, equal values or not
     _case("sum", None, False, _plateau_series(DAY // 4), units="mm"),
     _case("sum", [3, 10], False, _plateau_series(3 * DAY // 2), units="mm"),
@@ -264,11 +286,18 @@ def _run_link(case, ghost):
     }
     pulls = []
     data_units_ok = True
+    has_missing = any(op[0] == "push" and len(op) > 3 for op in case["ops"])
     try:
         for op in case["ops"]:
             if op[0] == "push":
                 vs = ghost_values(op[2]) if ghost else op[2]
                 data = np.array(vs, dtype=float).reshape(shape) if shape else float(vs[0])
+                if len(op) > 3:
+                    flags = np.array(op[3], dtype=bool).reshape(shape)
+                    if case.get("missing") == "mask":
+                        data = np.ma.masked_array(data, mask=flags)
+                    else:
+                        data[flags] = np.nan
                 out.push_data(data, T(op[1]))
             else:
                 try:
@@ -276,7 +305,14 @@ def _run_link(case, ghost):
                     if d.units != ureg.Unit(info_units):
                         data_units_ok = False
                     dn = d.to(u_norm) if scaled else d
-                    vals = [float(x) for x in np.asarray(magnitude(dn), dtype=float).reshape(-1)]
+                    m = magnitude(dn)
+                    if has_missing:
+                        raw = np.asarray(np.ma.getdata(m), dtype=float).reshape(-1)
+                        bits = [int(b or np.isnan(x)) for x, b in zip(raw, np.ma.getmaskarray(m).reshape(-1))]
+                        # a missing cell (masked or NaN) carries no value
+                        pulls.append(["ok", [0.0 if b else float(x) for x, b in zip(raw, bits)], bits])
+                        continue
+                    vals = [float(x) for x in np.asarray(m, dtype=float).reshape(-1)]
                     pulls.append(["ok", vals])
                 except Exception as e:  # noqa
                     pulls.append([err_class(e)])
@@ -298,7 +334,10 @@ def coq_case(case, obs):
     ops = []
     for op in case["ops"]:
         if op[0] == "push":
-            ops.append(C("VPush", Z(op[1]), L(Qf(v) for v in op[2])))
+            if len(op) > 3:
+                ops.append(C("VPushM", Z(op[1]), L(Qf(v) for v in op[2]), L(B(b) for b in op[3])))
+            else:
+                ops.append(C("VPush", Z(op[1]), L(Qf(v) for v in op[2])))
         else:
             ops.append(C("VPull", Z(op[1])))
     st = NONE if case["step"] is None else Some(Q(Fraction(case["step"][0], case["step"][1])))
@@ -337,7 +376,7 @@ def exact_integral(times, vals, step, a, b, scaled):
 
 
 def _walk(case, obs):
-    times, vals = [], []
+    times, vals, miss = [], [], []
     prev = None
     it = iter(obs["pulls"])
     n = obs["n"]
@@ -346,12 +385,14 @@ def _walk(case, obs):
     avg = case["adapter"] == "avg"
     scaled = avg or case["per_time"]
     tol = Fraction(1, 10**9)
+    incomplete = set()      # cells for which some delivery was missing: no total to conserve
     for op in case["ops"]:
         if op[0] == "push":
             if times and op[1] <= times[-1]:
                 return fails, st
             times.append(op[1])
             vals.append([Fraction(v) for v in op[2]])
+            miss.append([bool(b) for b in op[3]] if len(op) > 3 else [False] * len(op[2]))
             st["pubs"] += 1
             if prev is None:
                 prev = op[1]
@@ -376,9 +417,16 @@ def _walk(case, obs):
             fails.append(f"pull at {t} (previous pull {prev}, range [{times[0]},{times[-1]}]) returned {r}")
             prev = t
             continue
+        got_missing = r[2] if len(r) > 2 else [0] * n
         if t == prev:
             # initial pull: the first published value (x initial_interval for per-time sums)
             for j in range(n):
+                if bool(got_missing[j]) != miss[0][j]:
+                    fails.append(f"initial pull at {t} cell {j}: delivered {'a missing value' if got_missing[j] else repr(r[1][j])}, "
+                                 f"the first publication {'has it missing' if miss[0][j] else 'has a value there'}")
+                    break
+                if miss[0][j]:
+                    continue
                 want = vals[0][j] * (Fraction(case["init"], 10**6) if (not avg and case["per_time"]) else 1)
                 if abs(Fraction(r[1][j]) - want) > tol * (1 + abs(want)):
                     fails.append(f"initial pull at {t} component {j}: delivered {r[1][j]!r}, expected {float(want)!r}")
@@ -391,6 +439,18 @@ def _walk(case, obs):
             st["inside"] += 1
         for j in range(n):
             col = [v[j] for v in vals]
+            # a cell is missing in the result iff it is missing in a publication that bounds an interval
+            # meeting (p0, p1); publications the pull does not touch must not leak
+            want_missing = any((miss[i][j] or miss[i + 1][j]) for i in range(len(times) - 1)
+                               if times[i] < t and times[i + 1] > prev)
+            if bool(got_missing[j]) != want_missing:
+                fails.append(f"{case['adapter']} over [{prev},{t}] cell {j}: delivered {'a missing value' if got_missing[j] else repr(r[1][j])}, "
+                             f"but the publications bounding the intervals that meet ({prev},{t}) "
+                             f"{'have it missing' if want_missing else 'all have a value there'}")
+                break
+            if want_missing:
+                incomplete.add(j)
+                continue
             integ, contrib = exact_integral(times, col, case["step"], prev, t, scaled)
             got = Fraction(r[1][j])
             scale = 1 + max(abs(x) for x in col)
@@ -418,6 +478,8 @@ def _walk(case, obs):
     # conservation over the whole script: the total delivered equals the integral over [first p0, last p1]
     if not avg and st["last"] is not None and not fails:
         for j in range(n):
+            if j in incomplete:
+                continue
             col = [v[j] for v in vals]
             integ, _ = exact_integral(times, col, case["step"], st["first_prev"], st["last"], scaled)
             scale = (1 + max(abs(x) for x in col)) * (1 + (Fraction(times[-1] - times[0], 10**6) if scaled else len(times)))
@@ -462,6 +524,7 @@ def distribution(cases, obss):
     return {"adapters": dict(ad), "step_positions": dict(steps), "payload_shapes": dict(shapes), "source_units": dict(units),
             "delivered_units": dict(out_units), "pull_results": dict(res),
             "memory_limit": dict(Counter(str(c.get("mem")) for c in cases)),
+            "missing_values": dict(Counter(str(c.get("missing")) for c in cases)),
             "series_with_plateau_of_3_or_more": sum(1 for c in cases if _has_plateau(c)),
             "exact_dyadic_cases": sum(1 for c in cases if c["exact"])}
 
@@ -469,6 +532,7 @@ def distribution(cases, obss):
 def shrink_candidates(case):
     ops = case["ops"]
     if case["shape"]:
-        yield dict(case, shape=[], ops=[[o[0], o[1], o[2][:1]] if o[0] == "push" else o for o in ops])
+        if not any(o[0] == "push" and len(o) > 3 for o in ops):
+            yield dict(case, shape=[], ops=[[o[0], o[1], o[2][:1]] if o[0] == "push" else o for o in ops])
     for i in range(len(ops) - 1, -1, -1):
         yield dict(case, ops=ops[:i] + ops[i + 1:])
